@@ -58,7 +58,8 @@ func driveConc(args []string) int {
 	g := newProgen(seed)
 	g.failRate = 4
 	for round := 0; round < rounds; round++ {
-		// different inputs, sequential reference first
+		// different inputs; the concurrent calls are made first (in the first round they are the very first calls of the process:
+		// whatever the library sets up on first use is set up under concurrency), the sequential reference afterwards
 		srcs := make([][]byte, n)
 		want := make([]string, n)
 		for i := range srcs {
@@ -71,7 +72,6 @@ func driveConc(args []string) int {
 				src = scaleSource("vars-distinct", 250+10*i+round)
 			}
 			srcs[i] = []byte(src)
-			want[i] = interpOutcome(srcs[i], i%2 == 1, seed+int64(i))
 		}
 		got := make([]string, n)
 		var wg sync.WaitGroup
@@ -83,6 +83,9 @@ func driveConc(args []string) int {
 			}(i)
 		}
 		wg.Wait()
+		for i := range srcs {
+			want[i] = interpOutcome(srcs[i], i%2 == 1, seed+int64(i))
+		}
 		s.Cases += n
 		s.Judged += n
 		s.Distinct += n
